@@ -75,10 +75,10 @@ def split_returns(o, it, data):
     leaves = []
 
     def walk(t, guards):
-        if isinstance(t, Sym) and t.op == 'cond' and len(leaves) < 16:
+        if isinstance(t, Sym) and t.op == 'cond' and len(leaves) < 160:
             walk(t.args[1], guards + [t.args[0]])
             walk(t.args[2], guards + [T.not_(t.args[0])])
-        elif isinstance(t, Sym) and t.op == 'dyncall' and len(leaves) < 16:
+        elif isinstance(t, Sym) and t.op == 'dyncall' and len(leaves) < 160:
             # a call through a dispatch table with a run-time key: one
             # result per key
             for k_, alt in t.args[2]:
